@@ -345,6 +345,31 @@ pub mod q {
         kani::cover!(len < 64 && dirty[2] != 0, "garbage in spare words");
     }
 
+    /// Rank structures built over dirty storage answer as the ones built over
+    /// clean storage (rank, rank_zero, num_ones for every position).
+    #[kani::proof]
+    #[kani::unwind(12)]
+    pub fn rank_structures_ignore_garbage() {
+        use sux::rank_sel::{Rank9, RankSmall};
+        const N: usize = 9;
+        const LEN: usize = 64 * 8 + 7;
+        let dirty: [usize; N] = kani::any();
+        let mut clean = dirty;
+        clean[N - 1] &= lowmask(LEN % 64);
+        let p: usize = kani::any();
+        let a = Rank9::new(unsafe { BitVec::from_raw_parts(dirty, LEN) });
+        let b = Rank9::new(unsafe { BitVec::from_raw_parts(clean, LEN) });
+        assert_eq!(a.rank(p), b.rank(p));
+        assert_eq!(a.rank_zero(p), b.rank_zero(p));
+        assert_eq!(a.num_ones(), b.num_ones());
+        let c = RankSmall::<1, 9, _, _, _>::new(unsafe { BitVec::from_raw_parts(dirty, LEN) });
+        let d = RankSmall::<1, 9, _, _, _>::new(unsafe { BitVec::from_raw_parts(clean, LEN) });
+        assert_eq!(c.rank(p), d.rank(p));
+        assert_eq!(c.num_ones(), d.num_ones());
+        kani::cover!(dirty[N - 1] != clean[N - 1] && p >= LEN, "garbage present, position past the end");
+        std::mem::forget((a, b, c, d));
+    }
+
     /// BitVec writers: `set`, `fill`, `flip`, `reset` change no bit outside
     /// what they are documented to write.
     #[kani::proof]
